@@ -135,6 +135,9 @@ Judge(idx, ty, st, e, want, judgeLen) ==
                    { n \in DOMAIN st.val : IsMember(idx, ty, n) /\ o.raises[n] # ~Readable(st, n) })
     ELSE IF \E n \in DOMAIN st.val : IsMember(idx, ty, n) /\ ((n \in { o.dictkeys[j] : j \in 1..Len(o.dictkeys) }) # Readable(st, n))
          THEN Fail(st, "json_oneof_members_after_" \o e.op, "")
+    ELSE IF "isset" \in DOMAIN o /\ \E n \in DOMAIN st.val : idx[ty].byname[n].card = "optional" /\ n \in DOMAIN o.isset /\ o.isset[n] # Readable(st, n)
+         THEN Fail(st, "is_set_of_optional_field_after_" \o e.op,
+                   { n \in DOMAIN st.val : idx[ty].byname[n].card = "optional" /\ n \in DOMAIN o.isset /\ o.isset[n] # Readable(st, n) })
     ELSE IF e.op \in Copiers /\ ~e.eq THEN Fail(st, e.op \o "_not_equal_to_original", "")
     ELSE IF e.op \in Copiers /\ ~e.samebytes THEN Fail(st, e.op \o "_bytes_differ_from_original", "")
     ELSE IF judgeLen /\ LenJudged(o, e.op)[1] # "" THEN Fail(st, LenJudged(o, e.op)[1], LenJudged(o, e.op)[2])
